@@ -148,8 +148,10 @@ def check():
             if deleted != sorted(c["outputs"]) or created or changed_known:
                 rep.violation(key, f"clean removed {deleted}, created {created}, modified {changed_known}; Resolve.tla prescribes removing {sorted(c['outputs'])} {ctx}",
                               dict(case=c, deleted=deleted, created=created))
+    n_rt, ok_rt = random_trees(rep, wd, rng, 150 if quick else 3000, 6)
     rep.coverage.update(dict(
-        states=states, transitions=states, traces_validated_against_impl=len(vcases),
+        states=states, transitions=states, traces_validated_against_impl=len(vcases) + ok_rt,
+        random_tree_runs=n_rt, random_tree_records_validated=ok_rt,
         cases_enumerated=len(cases), cases_executed=len(vcases), distinct_classes=len(classes), max_inputs=maxin,
         exhaustive=True,
         rule="fixed tree (10 sources in 4 directories: foo.ext.txtpp, foo.txtpp.ext, foo.txtpp, dotted stems a.b.txtpp.c / i.txt.txtpp.bak, dot-file .e.txtpp; "
@@ -160,3 +162,165 @@ def check():
     ))
     rep.assumptions = ["no symbolic links (D12); path normalisation is lexical in the model"]
     rep.finish()
+
+
+# ---------------------------------------------------------------------------------------------
+# I->S: random trees, observed runs validated by TLC against Resolve.tla (ResolveObs.tla)
+SRC_NAMES = ["a.txt.txtpp", "b.txtpp.md", "c.txtpp", ".d.txtpp", "e.f.txtpp.g", "h.i.j.txtpp", ".k.l.txtpp", "m.txtpp.n", "o.p.txtpp", "q.r.txtpp.s"]
+DECOY_NAMES = ["txtpp", ".txtpp", "t.txtpp.tar.gz", "q.txtpp.r.s", "u.txt.TXTPP", "v.txt", "w.txtpp~", "x.txtpp_y", ".txtpp.z", "readme"]
+
+
+def out_name(n):
+    parts = n.split(".")
+    if parts[-1] == "txtpp":
+        return ".".join(parts[:-1])
+    assert parts[-2] == "txtpp", n
+    return ".".join(parts[:-2] + parts[-1:])
+
+
+def random_tree(rng):
+    dirs = [""]
+    for _ in range(rng.randint(1, 3)):
+        parent = rng.choice(dirs)
+        if parent.count("/") >= 2 and parent:
+            parent = ""
+        name = f"d{len(dirs)}"
+        dirs.append((parent + "/" if parent else "") + name)
+    tree = {}
+    sources = []
+    for d in dirs:
+        names = rng.sample(SRC_NAMES, rng.randint(0, 3))
+        # no two sources with the same output in one directory (D11)
+        seen, keep = set(), []
+        for n in names:
+            if out_name(n) not in seen:
+                seen.add(out_name(n))
+                keep.append(n)
+        decoys = [x for x in rng.sample(DECOY_NAMES, rng.randint(0, 3)) if x not in seen]
+        tree[d] = dict(files=keep + decoys, subs=[x.rsplit("/", 1)[-1] for x in dirs if x and (x.rsplit("/", 1)[0] if "/" in x else "") == d])
+        sources += [(d + "/" if d else "") + n for n in keep]
+    deps = {}
+    order = list(sources)
+    rng.shuffle(order)
+    for i, s in enumerate(order):
+        later = order[i + 1:]
+        deps[s] = sorted(rng.sample(later, min(len(later), rng.choice([0, 0, 1, 1, 2]))))
+    return dirs, tree, sources, deps
+
+
+def rel(from_dir, to_path):
+    return os.path.relpath(to_path, from_dir or ".")
+
+
+def random_trees(rep, wd, rng, n_trees, runs_per_tree):
+    from common import run_tlc, SPEC
+    import re
+    vcases, meta = [], []
+    for ti in range(n_trees):
+        dirs, tree, sources, deps = random_tree(rng)
+        if not sources:
+            continue
+        outputs = {s: ((os.path.dirname(s) + "/") if "/" in s else "") + out_name(os.path.basename(s)) for s in sources}
+        base_files = []
+        for d in dirs:
+            base_files.append(dict(path="t/" + (d + "/" if d else "") + ".keepdir", text=""))
+            for n in tree[d]["files"]:
+                p = (d + "/" if d else "") + n
+                if p in sources:
+                    text = f"S:{p}\n" + "".join(f"TXTPP#include {rel(os.path.dirname(p), outputs[x])}\n" for x in deps[p]) + \
+                           f"-TXTPP#run echo '{p}' >> '{{root}}/markers.log'\n"
+                    base_files.append(dict(path="t/" + p, text=text, subst=True))
+                else:
+                    base_files.append(dict(path="t/" + p, text=f"keep {p}\n"))
+        for _ in range(runs_per_tree):
+            mode = rng.choice(["build", "build", "clean"])
+            rec = rng.random() < 0.5
+            inputs = []
+            for _ in range(rng.randint(1, 3)):
+                k = rng.random()
+                if k < 0.3:
+                    d = rng.choice(dirs)
+                    inputs.append(rng.choice([d or ".", "./" + d if d else "./", (d + "/") if d else "."]))
+                elif k < 0.55:
+                    inputs.append(rng.choice(sources))
+                elif k < 0.8:
+                    s = rng.choice(sources)
+                    inputs.append(rng.choice([outputs[s], "./" + outputs[s]]))
+                elif k < 0.9 and len(dirs) > 1:
+                    s = rng.choice(sources)
+                    d = rng.choice(dirs[1:])
+                    inputs.append(d + "/" + "/".join([".."] * (d.count("/") + 1)) + "/" + s)
+                else:
+                    inputs.append(rng.choice(["missing.txt", "nope.txtpp", "txtpp", "v.txt", "d1/none.md"]))
+            files = list(base_files) + [dict(path="markers.log", text="")]
+            pre_out = sorted(set(outputs.values())) if mode == "clean" else []
+            files += [dict(path="t/" + o, text=f"old {o}\n") for o in pre_out]
+            run = dict(base="t", inputs=inputs, recursive=rec, mode=mode, threads=2)
+            vcases.append(dict(id=f"rt{len(vcases)}", files=files, report="changed", steps=[dict(run=run)]))
+            meta.append((ti, dirs, tree, deps, inputs, rec, mode, pre_out, outputs))
+    res = vh_cases(vcases, wd, "rtrees", templates={})
+    recs = []
+    last_tree = None
+    for (ti, dirs, tree, deps, inputs, rec, mode, pre_out, outputs), r in zip(meta, res):
+        if r.get("skipped"):
+            continue
+        st = r["steps"][0]
+        if st["verdict"] not in ("ok", "err"):
+            continue
+        key = (ti, mode)
+        if key != last_tree:
+            last_tree = key
+            drecs = []
+            for d in dirs:
+                fs = list(tree[d]["files"]) + [".keepdir"] + [os.path.basename(o) for o in pre_out if (os.path.dirname(o) == d)]
+                drecs.append(dict(path=d, files=sorted(set(fs)), subs=tree[d]["subs"]))
+            recs.append(dict(event="tree", dirs=drecs, deps=[dict(src=s, on=deps[s]) for s in sorted(deps)]))
+        t = st["tree"]
+        marks = sorted(set(x for x in t.get("markers.log", {}).get("text", "").splitlines() if x))
+        known = {(d + "/" if d else "") + n for d in dirs for n in tree[d]["files"]}
+        created = sorted(p[2:] for p, v in t.items() if p.startswith("t/") and "text" in v and p[2:] not in known and p[2:] not in pre_out)
+        deleted = sorted(p[2:] for p, v in t.items() if v.get("deleted") and p.startswith("t/"))
+        if mode == "build":
+            processed, outs = marks, created
+        else:
+            outs = deleted
+            processed = sorted(s for s, o in outputs.items() if o in deleted)
+        recs.append(dict(event="run", inputs=inputs, rec=rec, mode=mode, verdict=st["verdict"], processed=processed, outputs=outs))
+    chunks, cur = [], []
+    for e in recs:
+        if e["event"] == "tree" and len(cur) > 400:
+            chunks.append(cur)
+            cur = []
+        cur.append(e)
+    if cur:
+        chunks.append(cur)
+
+    def val(ic):
+        i, chunk = ic
+        # a chunk must start with a tree record
+        tf = os.path.join(wd, f"robs-{i}.ndjson")
+        with open(tf, "w") as f:
+            for e in chunk:
+                f.write(json.dumps(e) + "\n")
+        cfg = os.path.join(wd, "robs.cfg")
+        open(cfg, "w").write("SPECIFICATION TraceSpec\nPOSTCONDITION TraceAccepted\nCHECK_DEADLOCK FALSE\n")
+        return chunk, run_tlc("ResolveObs.tla", cfg, f"robs-{i}", workers=1, timeout=1800, env_extra={"TRACE": tf},
+                              java_opts="-Xss1g -Xmx2g -Dtlc2.tool.queue.IStateQueue=StateDeque", check=False)
+    with cf.ThreadPoolExecutor(max_workers=12) as ex:
+        vals = list(ex.map(val, enumerate(chunks)))
+    ok = 0
+    for chunk, r in vals:
+        if r["ok"]:
+            ok += len(chunk)
+            continue
+        m = re.search(r'TRACE REJECTED at event",\s*(\d+)', r["out"])
+        if not m:
+            raise ToolError("ResolveObs validation broke:\n" + r["out"][-3000:])
+        k = int(m.group(1))
+        ok += k - 1
+        j = k - 1
+        while j > 0 and chunk[j]["event"] != "tree":
+            j -= 1
+        rep.violation(f"rtree:{json.dumps(chunk[k - 1].get('inputs'))}", f"observed run {chunk[k - 1]} is not what Resolve.tla prescribes for the tree {chunk[j]}",
+                      dict(tree=chunk[j], run=chunk[k - 1]))
+    return len(vcases), ok
